@@ -8,8 +8,8 @@ CHECKS = {
              text="Seeded search over generated periodic worlds (cells of every family, planted copies/decoys, hints, tolerances) with every random decision of the search scripted (first/last/alternate/Mersenne-Twister streams, adversarial axis draws); each returned match is checked against an independent rigid-motion oracle. Exploration: a clean batch is evidence, not proof.",
              note="Trusted: numpy/scipy linear algebra, the harness' Kabsch/lattice arithmetic; acceptance norm = numpy.allclose per coordinate.", ref="5/C01"),
  "C02": dict(technique="deterministic simulation: planted ground truth + independent exhaustive reference matcher, RNG scripted",
-             text="Same simulated worlds with planted occurrences across faces/edges/corners; completeness demanded for copies certified well inside tolerance (atol/(2K)), duplicates forbidden, count equality asserted when an exhaustive independent enumeration finds no gray-zone group; repeated under every RNG script.",
-             note="Trusted: the harness' reference matcher/classifier; 'well inside' is atol/(2K), so a tightening of the tolerance by less than ~4x is not detected.", ref="5/C02"),
+             text="Same simulated worlds with planted occurrences across faces/edges/corners; completeness demanded for copies certified well inside tolerance (a-priori bound atol/(2K), or - for copies with noise up to 0.75 atol - the all-anchor certificate: every pair distance and every three-point anchoring within 0.8 atol), duplicates forbidden, count equality asserted when an exhaustive independent enumeration finds no gray-zone group; repeated under every RNG script.",
+             note="Trusted: the harness' reference matcher/classifier and the all-anchor certificate; a tightening of the tolerance to less than ~0.8 atol is detected (hand mutants mutants/c02_*), sites between 0.8 atol and sqrt(3) atol are not judged.", ref="5/C02"),
  "C03": dict(technique="deterministic simulation: paired runs (re-presentation x RNG script), real MOF files through the simulated file seam",
              text="Each simulated run searches a base world and 2-5 re-presentations of it (shift+wrap, atom permutation, rigid motion of the pattern, other valid hint triple incl. index 0, other RNG script, a x b x c supercell built by Atoms.replicate) and compares the matched groups through the known renaming; groups must survive when their residual is certified small for the other side's hints; supercell counts must be exactly a*b*c per certified unit-cell group. The repository's real MOF files (read through simulated file objects with scripted chunking) are part of the workload.",
              note="Trusted: harness arithmetic (Kabsch residuals, folding supercell atoms by position). Groups without certified margin are not judged.", ref="5/C03"),
@@ -40,13 +40,13 @@ CHECKS = {
  "C06": dict(technique="deterministic simulation: chained replacement histories vs reference model (delete+extend), scripted RNG, tapped search, durable restart read by an independent reader",
              text="Histories of 1-3 chained replacements on worlds whose structure carries typed terms inside/outside/across the occurrences and whose patterns carry all four term kinds, coefficient tables, pair coefficients, colliding labels, charges, groups; after each call the result must equal the reference model's extend+delete of the observed selection (each pattern term once per match with the pattern's coefficient text, retained atoms re-typed, bystander terms intact unless superseded forwards/backwards), and the final structure is written to the simulated disk and compared through an independent strict LAMMPS reader.",
              note="Known finding (printed as KNOWN-FINDING, see known_findings.json): the documented CIF workflow (structure without pair table + parameterised pattern) misaligns the pair table. Inserted positions are C05's subject.", ref="5/C06"),
- "C13": dict(technique="deterministic simulation: writer -> simulated disk (short/torn/failed writes, crash) -> independent strict reader + real reader, repeated restarts",
+ "C13": dict(technique="deterministic simulation: writer -> simulated disk (ENOSPC/EIO inside write() or only at close(), torn and lost writes, crash, short reads, read errors; caller-owned read/write streams; str/pathlib/odd-extension/dotted paths) -> independent strict reader + real reader, repeated restarts",
              text="Generated structures (both atom styles, orthorhombic / LAMMPS-oriented tilted cells incl. unreduced tilts / no cell, unused types, multi-word coefficient comments, negative charges and coordinates) are written through every branch of Atoms.save/save_lmpdat onto a simulated disk, inspected by an independent strict reader of the documented format (header counts vs sections, box/tilt, 1-based ids, masses, labels, coefficient tokens), re-read through path / simulated file objects with scripted line delivery, compared with the reference model to printed precision, and re-written twice (T2 == T3 byte-for-byte). Fault configurations: ENOSPC/EIO after k characters, lost and torn writes, with the oracle 'raised, object unchanged, clean retry right'.",
              note="Decided against the harness' strict reader of the documented read_data format, not against LAMMPS itself. Elements not compared (C14).", ref="5/C13"),
  "C16": dict(technique="deterministic simulation: documents served through simulated text streams with scripted read(n) chunking, real files and real paths",
              text="Generated CML documents in the repository's Avogadro flavour (any id scheme incl. shuffled and arbitrary strings, bond list present/empty/absent, coordinates of any sign/magnitude, attribute order varied) are loaded through simulated streams that return 1..n characters per read(n), through a real open file and through str/pathlib paths, via Atoms.load and load_cml; atoms (order, element, exact coordinates) and bonds (multiset of pairs) must equal the document in every delivery mode.",
              note="xml.etree is real code fed by the stub stream. Bond listing order/orientation not judged.", ref="5/C16"),
- "C15": dict(technique="deterministic simulation: writer -> simulated disk -> independent tokenizer + real reader (scripted chunking) + ASE; restart idempotence; hand-made inputs for the reader",
+ "C15": dict(technique="deterministic simulation: writer -> simulated disk (write errors inside write() or at close(), read errors, scripted chunking, caller-owned read/write streams) -> independent tokenizer + real reader + ASE; restart idempotence incl. layout of data names; hand-made inputs for the reader",
              text="Generated structures (cells of every family, terms of every kind, extra columns, coordinates inside/outside/on the boundary) are written as P1 CIF in fractional or Cartesian form through every save branch onto the simulated disk, inspected by an independent CIF tokenizer (cell parameters, element order, coordinates to printed precision, charges, bond/angle/torsion label resolution, extra columns), re-read through path / simulated streams, compared with the reference model (fractional coordinates modulo 1, torsions = dihedrals then impropers), re-written twice (T2 == T3), and compared with ASE's reader; plus a hand-made CIF text per run (s.u. parentheses, Cartesian, coordinates several cells away, P1 / non-P1 names).",
              note="PyCifRW 5.0.1 and ASE are real. Type labels are not part of a CIF and are not compared.", ref="5/C15"),
  "C20": dict(technique="deterministic simulation: CLI run in-process as a client of the library under the scripted random seam, its library calls tapped, files compared with the API path",
@@ -92,7 +92,7 @@ def main():
                      "kind_free_text": "hand-written deterministic simulator: seeded scheduler PRNG -> world/operation/fault spec -> real mofun code under scripted random seam, simulated disk and call taps -> oracles/reference models; own minimiser and literal-spec replay files"}],
         "checks": checks,
         "not_applicable": sorted(na, key=lambda n: n["property_id"]),
-        "notes": "All checks: ./check <ID> [--tier quick|thorough] [--replay FILE]; honours VERIF_SEED, VERIF_TIER, VERIF_WORKERS, VERIF_BUDGET_S. Exit 0 ok / 1 VIOLATION / 2 HARNESS-ERROR. Self-tests: ./check selftest-determinism, ./check selftest-seeded.",
+        "notes": "All checks: ./check <ID> [--tier quick|thorough] [--replay FILE]; honours VERIF_SEED, VERIF_TIER, VERIF_WORKERS, VERIF_BUDGET_S. Exit 0 ok / 1 VIOLATION / 2 HARNESS-ERROR. Self-tests: ./check selftest-determinism, ./check selftest-seeded, ./check selftest-refactors. Every run executes in its own forked process image; replay files carry the literal (minimised) spec.",
     }
     with open(os.path.join(HERE, "MANIFEST.json"), "w") as f:
         json.dump(m, f, indent=1)
